@@ -14,6 +14,8 @@ case = one run of update_file:
         | ["write", k]            the k-th write() to a file in the local file's directory fails (ENOSPC)
         | ["open"]                opening a file for writing in that directory fails (EACCES)
         | ["rename"]              os.rename / os.replace onto the local file fails (EXDEV)
+        | ["close"]               writes stay buffered and the flush at close fails (ENOSPC): the
+                                  failure surfaces only when the written file is closed
 
 The repository lives in a per-case tempfile.mkdtemp() directory (repo/, local/, tmp/) that is removed
 before check() returns; I/O faults are injected with unittest.mock for the duration of the one
@@ -137,7 +139,7 @@ def normalise(case):
             faults.append(["index", f[1], x % (N_BROKEN if f[1] == "broken" else n)])
         elif f[0] == "write":
             faults.append(["write", max(int(f[1]), 1)])
-        elif f[0] in ("open", "rename"):
+        elif f[0] in ("open", "rename", "close"):
             faults.append([f[0]])
         else:
             return None
@@ -166,7 +168,7 @@ def plans(hist):
         fl.append([["index", "unlisted", j]])
     for k in range(1, len(vs[-1]) + 1):
         fl.append([["write", k]])
-    fl += [[["open"]], [["rename"]],
+    fl += [[["open"]], [["rename"]], [["close"]], [["index", "missing", 0], ["close"]],
            [["index", "missing", 0], ["write", 1]], [["index", "missing", 0], ["rename"]],
            [["index", "broken", 0], ["write", max(len(vs[-1]), 1)]], [["index", "broken", 1], ["rename"]]]
     return [(s, f) for f in fl for s in starts]
@@ -280,6 +282,11 @@ class FailingWriter(object):
 
     def write(self, data):
         st_ = self._st
+        if st_.get("fail_close"):
+            # "close" fault: the data stays in the buffer and the failure (disk full, quota, file
+            # size limit) only surfaces when the file is flushed at close
+            self._pending = getattr(self, "_pending", type(data)()) + data
+            return len(data)
         st_["writes"] += 1
         if st_["writes"] == st_["fail_write"]:
             st_["fired"].add("write")
@@ -296,7 +303,25 @@ class FailingWriter(object):
         self._f.__enter__()
         return self
 
+    def _fail_at_close(self):
+        pend = getattr(self, "_pending", None)
+        self._pending = None
+        self._st["fired"].add("close")
+        try:
+            if pend:
+                self._f.write(pend[:len(pend) // 2])
+        finally:
+            self._f.close()
+        raise OSError(errno.ENOSPC, "No space left on device (injected at close)")
+
+    def close(self):
+        if self._st.get("fail_close") and not self._f.closed:
+            self._fail_at_close()
+        return self._f.close()
+
     def __exit__(self, *a):
+        if self._st.get("fail_close") and not self._f.closed:
+            self._fail_at_close()
         return self._f.__exit__(*a)
 
     def __iter__(self):
@@ -319,9 +344,12 @@ def _in_dir(name, directory):
 def run_update(remote, local, faults, st_):
     """update_file(remote, local) with the I/O faults of the plan; every mock ends with the call."""
     localdir = os.path.dirname(local)
-    st_.update(writes=0, fired=set(), urls=[], fail_write=None, fail_open=False, fail_rename=False)
+    st_.update(writes=0, fired=set(), urls=[], fail_write=None, fail_open=False, fail_rename=False,
+               fail_close=False)
     for f in faults:
-        if f[0] == "write":
+        if f[0] == "close":
+            st_["fail_close"] = True
+        elif f[0] == "write":
             st_["fail_write"] = f[1]
         elif f[0] == "open":
             st_["fail_open"] = True
@@ -437,7 +465,7 @@ def check(case):
     must_raise, either = [], []
     for f in faults:
         nm = fault_name(f)
-        if f[0] in ("write", "open", "rename"):
+        if f[0] in ("write", "open", "rename", "close"):
             if f[0] in fired:
                 must_raise.append(nm)
         elif f[0] == "patch" and nm in fired:
